@@ -10,9 +10,11 @@ import Driver.OpsLunar
 import Driver.OpsTerms
 import Driver.OpsHoliday
 import Driver.OpsEightChar
+import Driver.OpsAlmanac
+import Driver.OpsWeek
 namespace Driver
 
-def allOps : List (String × Handler) := opsCivil ++ opsLunar ++ opsTerms ++ opsHoliday ++ opsEightChar
+def allOps : List (String × Handler) := opsCivil ++ opsLunar ++ opsTerms ++ opsHoliday ++ opsEightChar ++ opsAlmanac ++ opsWeek
 
 structure Stats where
   lines : Nat := 0
